@@ -72,7 +72,7 @@ def queries(tier, seed):
                     full = hdr_len + data
                     name = 'p%d_%dx%d_m%d_v%d' % (t_, w, h, mx, var)
                     pix = 'gil::rgb8_pixel_t' if t_ in (3, 6) else 'gil::gray8_pixel_t'
-                    UNW[0] = 26 if (t_ <= 3 or var == 2) else 16; USET[0] = [(r'^F_h_read$', 120)] if t_ <= 3 else []   # harness loops constraining ascii data
+                    UNW[0] = 26 if (t_ <= 3 or var == 2) else 16; USET[0] = [(r'^F_h_read$|^F_h_info_twice$|make_file', 120)] if t_ <= 3 else []   # harness loops constraining ascii data
                     lens = sorted(set([0, 1, 2, 3, hdr_len - 1, hdr_len, hdr_len + 1, full - 1, full, full + 2]))
                     for L in [x for x in lens if x >= 0]:
                         quick = (w, h) == (3, 2) and L in (full, full - 1, hdr_len) and (var == 0 or L == full) and mx in (255, 300)
@@ -91,7 +91,7 @@ def queries(tier, seed):
                     full = 18 + idlen + w * h * (bpp // 8)
                     name = 't%d_bpp%d_d%d_id%d_%dx%d' % (imgtype, bpp, desc, idlen, w, h)
                     # RLE packets carry up to 128 pixels: the decoder's copy loop needs that bound
-                    UNW[0] = 16; USET[0] = [(r'^F_h_read$', 70)] if imgtype == 10 else []; rle = [0x7C, 18 + idlen] if imgtype == 10 else [0, 0]   # RLE: packets of 1..4 pixels
+                    UNW[0] = 16; USET[0] = [(r'^F_h_read$|^F_h_info_twice$|make_file', 70)] if imgtype == 10 else []; rle = [0x7C, 18 + idlen] if imgtype == 10 else [0, 0]   # RLE: packets of 1..4 pixels
                     lens = sorted(set([0, 1, 3, 12, 17, 18, 18 + idlen, 18 + idlen + 1, full - 1, full, full + 2]))
                     if imgtype == 10: lens = [full] if ((w, h) == (3, 2) and idlen == 0) else []
                     for L in [x for x in lens if x >= 0]:
